@@ -40,6 +40,7 @@ PINS.update({
     "linspace JVP": ("C05", ["regress/C05/linspace-jvp-mixed.json"]),
     "where JVP": ("C05", ["regress/C05/where-jvp-mixed.json"]),
 })
+PINS["select returns numpy"] = ("C06", ["regress/C06/select-mixed-dtype.json"])
 EXTRA = {}
 
 
